@@ -1,5 +1,6 @@
 """C05 - no input crashes or hangs the shell: panic-site inventory with discharge rules (E-PANIC)
 and loop progress (E-LOOP)."""
+import os
 import re
 
 from .. import bounds, flow, mir, refacts
@@ -81,6 +82,8 @@ def run(ctx):
                       "start handed to the line editor) unless a running correction adds len_utf8()-1 for every "
                       "character that is not a known ASCII constant - otherwise the offset lands inside a multi-byte "
                       "character and the slice panics")
+    ctx.rule("R05-5", "the audited unwrap of parse::<f64>() in the float evaluator rests on the grammar: every literal the "
+                      "rule `num` accepts parses as f64 (bounded exhaustive evaluation of the grammar, see C19 R19-5)")
     ctx.rule("R05-4", "self-referential variable values: text read from the environment inside expand_env is not fed "
                       "back into the pass's own `$` scanner (same analysis as C10 R10-1)")
     for crate in ctx.crates:
@@ -99,6 +102,13 @@ def run(ctx):
         ni = ispace.rule(ctx, crate, "R05-3", sorted(p for p, b in crate.bodies.items() if b.kind in ("fn", "closure")),
                          panicking_only=True)
         ctx.floor("R05-3", crate, "index-space obligations", ni, 2 if crate.kind == "bin" else 0)
+        try:
+            from .. import pest as _pest
+            from .c19 import num_syntax_rule
+            _g = _pest.Grammar(os.path.join(ctx.root, "src", "calculator", "grammar.pest"))
+            num_syntax_rule(ctx, crate, _g, "R05-5")
+        except Exception as _e:   # fail closed
+            ctx.require(False, "R05-5", "R05-5|grammar", "cannot evaluate the calculator grammar: %s" % str(_e)[:120])
         from .c10 import rescan_rule
         ee = crate.fn("shell::expand_env")
         if ctx.require(ee is not None, "R05-4", "R05-4|anchor", "shell::expand_env not found"):
